@@ -203,7 +203,11 @@ fn tql2<T: RealNumber, M: BaseMatrix<T>>(V: &mut M, d: &mut [T], e: &mut [T]) {
     e[n - 1] = T::zero();
 
     let mut f = T::zero();
+    // deflate relative to the norm of the whole tridiagonal matrix, not of the rows seen so far
     let mut tst1 = T::zero();
+    for l in 0..n {
+        tst1 = T::max(tst1, d[l].abs() + e[l].abs());
+    }
     for l in 0..n {
         tst1 = T::max(tst1, d[l].abs() + e[l].abs());
 
